@@ -19,14 +19,14 @@ package martianlog
 //@ func (*Logger).ModifyRequest
 //@   serves C15
 //@   requires l != nil && req != nil && req.URL != nil && linked(req)
-//@   modifies req.Body, nLog, mvReadSrc, mvReadData, mvReaderData, mvReader, mvNopSrc, mvNop, mvCLWritten, mvCLValue, martian.ctxmu.rheld, sync.RWMutex.rheld
+//@   modifies req.Body, nLog, mvDidRead, mvReadSrc, mvReadData, mvReaderData, mvReader, mvNopSrc, mvNop, mvCLWritten, mvCLValue, martian.ctxmu.rheld, sync.RWMutex.rheld
 //@   ensures[skip-logging-leaves-log-and-message-untouched] skipMarked(req) ==> result == nil && nLog == old(nLog) && req.Body == old(req.Body)
 //@   ensures[logged-once-otherwise] !skipMarked(req) && result == nil ==> nLog == old(nLog) + 1
 //@   ensures[replaced-body-reads-the-bytes-of-the-old-one] req.Body != old(req.Body) ==> req.Body == mvNop && mvNopSrc == iface(mvReader) && mvReaderData == mvReadData && mvReadSrc == old(req.Body)
 //@ func (*Logger).ModifyResponse
 //@   serves C15
 //@   requires l != nil && res != nil && res.Request != nil && res.Request.URL != nil && linked(res.Request)
-//@   modifies res.Body, nLog, mvReadSrc, mvReadData, mvReaderData, mvReader, mvNopSrc, mvNop, mvCLWritten, mvCLValue, martian.ctxmu.rheld, sync.RWMutex.rheld
+//@   modifies res.Body, nLog, mvDidRead, mvReadSrc, mvReadData, mvReaderData, mvReader, mvNopSrc, mvNop, mvCLWritten, mvCLValue, martian.ctxmu.rheld, sync.RWMutex.rheld
 //@   ensures[skip-logging-leaves-log-and-message-untouched] skipMarked(res.Request) ==> result == nil && nLog == old(nLog) && res.Body == old(res.Body)
 //@   ensures[logged-once-otherwise] !skipMarked(res.Request) && result == nil ==> nLog == old(nLog) + 1
 //@   ensures[replaced-body-reads-the-bytes-of-the-old-one] res.Body != old(res.Body) ==> res.Body == mvNop && mvNopSrc == iface(mvReader) && mvReaderData == mvReadData && mvReadSrc == old(res.Body)
